@@ -1,5 +1,5 @@
 ---- MODULE MC_Advance ----
 EXTENDS Advance, Json
-MCM == {0, 1, 7, 99, 100, 101, 250}
+MCM == {0, 1, 7, 99, 100, 101, 201, 250, 351}
 Export == Len(calls) = MaxCalls => PrintT(ToJson([calls |-> calls, len |-> clen]))
 ====
